@@ -31,6 +31,8 @@ ODD_POOL = [('u3', 'u3', ['uint8', 3]), ('u0', 'u0', ['uint8', 0]), ('m', 'm', [
 # systems whose class defines its own ordering (by id, descending - e.g. for display), and systems whose window opens
 # later than they are registered (start 1 / 2): neither has any bearing on the execution order among those that run
 LT_POOL = [('z1', 'z1', 0, 'lt'), ('y1', 'y1', 0, 'lt'), ('x2', 'x2', 1, 'lt'), ('w2', 'w2', 1, 'lt'), ('p', 'p', 0)]
+# identifiers that are not strings (numbered systems): 1 is taken twice
+INT_POOL = [('i1', 1, 0), ('i1b', 1, 1), ('i2', 2, 0), ('s', 's', 0)]
 LATE_POOL = [('b', 'b', 0), ('L2', 'L2', 0, 'start2'), ('a', 'a', 0), ('c', 'c', 1), ('M1', 'M1', 1, 'start1')]
 
 
@@ -98,7 +100,7 @@ class Harness:
         self.logger_level = logger_level
         self.aliases = aliases          # use the deprecated camelCase entry points (addSystem / removeSystem / executeSystems)
         self.config = {'pool': [list(p) for p in self.pool], 'logger_level': logger_level, 'aliases': aliases}
-        self.ids = sorted({p[1] for p in self.pool}) + ['zz']
+        self.ids = sorted({p[1] for p in self.pool}, key=repr) + ['zz']
         self._ops = [['add', p[0]] for p in self.pool] + [['remove', i] for i in self.ids] + [['step']]
         # building (never registering) another system object under a pool id, and shallow-copying a pool object
         self._ops += [['construct', p[0]] for p in self.pool[:2]]
@@ -240,6 +242,8 @@ class Harness:
         sm = w.model.systems
         reg = self._registered(w)
         for sid in self.ids:
+            if not isinstance(sid, str):
+                continue      # the accessor is documented for string ids (anything else is read as a component type)
             got = sm[sid]
             exp = w.objs[reg[sid]] if sid in reg else None
             if got is not exp:
@@ -547,7 +551,7 @@ def run(ctx):
         ctx.cap('odd_pool: fixpoint not reached')
     if ctx.violations:
         return
-    for name, pool in (('own_ordering', LT_POOL), ('late_start', LATE_POOL)):
+    for name, pool in (('own_ordering', LT_POOL), ('late_start', LATE_POOL), ('numbered_ids', INT_POOL)):
         hp = Harness(pool)
         r = hbfs.explore(ctx, hp, name, max_depth=40, procs=ctx.procs)
         ctx.leg(name, **r)
